@@ -24,6 +24,7 @@ namespace Avoid { int bends(const Point& curr, unsigned int currDir, const Point
 #include "libavoid/libavoid.h"
 #include <queue>
 #include <set>
+#include <map>
 using namespace Avoid;
 
 static std::string H(double d) { return vh::hx(d); }
@@ -158,7 +159,7 @@ static void applyOutsideRule(Scene &s) {
 // generator classes
 static const char *CLASSES[] = {"scene-random", "scene-lattice", "scene-brick", "scene-walls", "scene-tiny"};
 
-static Scene genScene(vh::Rng &r, int cls, int maxRects, bool dirs) {
+static Scene genScene(vh::Rng &r, int cls, int maxRects, int dirsKind) {
     Scene s;
     const double pens[3] = {10, 50, 200};
     s.pen = pens[r.range(0, 2)];
@@ -242,8 +243,16 @@ static Scene genScene(vh::Rng &r, int cls, int maxRects, bool dirs) {
     pickPt(s.sx, s.sy);
     do { pickPt(s.tx, s.ty); } while (s.tx == s.sx && s.ty == s.sy);
     if (r.coin(1, 5)) { if (r.coin()) s.tx = s.sx; else s.ty = s.sy; if (!freePoint(s, s.tx, s.ty, 1.0) || (s.tx == s.sx && s.ty == s.sy)) { s.tx = -6; s.ty = -7; } }
-    if (dirs) { do { s.smask = pickMask(r); s.tmask = pickMask(r); } while (s.smask == 15 && s.tmask == 15); }
-    else { s.smask = 15; s.tmask = 15; }
+    s.smask = 15; s.tmask = 15;
+    if (dirsKind == 1) {            // only the source restricted; endpoints not on a common row/column
+        if (s.tx == s.sx) s.tx += 1.5;
+        if (s.ty == s.sy) s.ty += 1.5;
+        if (!freePoint(s, s.tx, s.ty, 1.0)) { s.tx = -6; s.ty = -7; }
+        do { s.smask = pickMask(r); } while (s.smask == 15);
+    } else if (dirsKind == 2) {     // target restricted, source anything
+        do { s.tmask = pickMask(r); } while (s.tmask == 15);
+        s.smask = pickMask(r);
+    }
     applyOutsideRule(s);
     return s;
 }
@@ -377,6 +386,153 @@ static void runScene(long k, const char *tag, const Scene &s) {
     vh::endCase();
 }
 
+
+// "leave-away" shape: the source may only be left in ONE direction, which does not head at the
+// target, so the route has to turn off its very first segment; the only line on which it can turn
+// is generated by a rectangle lying on the far side of the first segment from the target, so the
+// turn towards the target heads away from that rectangle.  Base orientation: source (0,0) leaves
+// South, rectangle to the West whose bottom side gives the turning row, target to the North-East
+// or South-East of the turning row; then mirrored / transposed at random.
+static Scene genLeaveAway(vh::Rng &r) {
+    Scene s;
+    const double pens[3] = {10, 50, 200};
+    s.pen = pens[r.range(0, 2)];
+    s.buf = r.coin(1, 3) ? 0.5 : 0.0;
+    double rowY = r.range(2, 9);                       // turning row (bottom side of the rectangle + buf)
+    double gapX = r.range(2, 8), w = r.range(1, 8), h = r.range(2, 12);
+    R4 W; W.x1 = -gapX - s.buf; W.x0 = W.x1 - w; W.y1 = rowY - s.buf; W.y0 = W.y1 - h;
+    s.rects.push_back(W);
+    s.sx = 0; s.sy = 0; s.smask = 2;                   // ConnDirDown only
+    s.tx = r.range(2, 12) + (r.coin(1, 3) ? 0.5 : 0.0);
+    s.ty = r.coin(3, 4) ? -(double) r.range(1, 12) : rowY + r.range(1, 6);
+    s.tmask = 15;
+    // optional far-away clutter that creates no line between source and target
+    int extra = (int) r.range(0, 2);
+    for (int e = 0; e < extra; ++e) {
+        R4 c; c.x0 = W.x0 - 4 - r.range(0, 6) - 3; c.x1 = c.x0 + r.range(1, 3); c.y0 = r.range(-30, -20); c.y1 = c.y0 + r.range(1, 3);
+        bool ok = true; for (const R4 &o : s.rects) if (!separated(c, o, 2)) ok = false;
+        if (ok) s.rects.push_back(c);
+    }
+    // random orientation: flip x, flip y, transpose
+    bool fx = r.coin(), fy = r.coin(), tr = r.coin();
+    auto fm = [&](unsigned m) {                         // Up=1 Down=2 Left=4 Right=8
+        unsigned u = m & 1, d = (m >> 1) & 1, l = (m >> 2) & 1, rr = (m >> 3) & 1;
+        if (fx) std::swap(l, rr);
+        if (fy) std::swap(u, d);
+        if (tr) { std::swap(u, l); std::swap(d, rr); }
+        return u | (d << 1) | (l << 2) | (rr << 3);
+    };
+    auto fp = [&](double &x, double &y) { if (fx) x = -x; if (fy) y = -y; if (tr) std::swap(x, y); };
+    for (R4 &q : s.rects) {
+        double ax = q.x0, ay = q.y0, bx = q.x1, by = q.y1; fp(ax, ay); fp(bx, by);
+        q.x0 = std::min(ax, bx); q.x1 = std::max(ax, bx); q.y0 = std::min(ay, by); q.y1 = std::max(ay, by);
+    }
+    fp(s.sx, s.sy); fp(s.tx, s.ty);
+    s.smask = fm(s.smask);
+    applyOutsideRule(s);
+    return s;
+}
+
+// ---- oracle on libavoid's own orthogonal visibility graph (direction-restricted scenes)
+static int hopHeading(const Point &a, const Point &b) {      // -1: not axis-parallel or zero length
+    if (a.y == b.y) return b.x > a.x ? 1 : (b.x < a.x ? 3 : -1);
+    if (a.x == b.x) return b.y > a.y ? 2 : 0;
+    return -1;
+}
+
+static void dumpGraphAndCertificate(Router *router, ConnRef *conn, double pen) {
+    std::vector<VertInf *> vs;
+    std::map<VertInf *, int> id;
+    for (VertInf *v = router->vertices.connsBegin(); v != router->vertices.end(); v = v->lstNext) {
+        id[v] = (int) vs.size(); vs.push_back(v);
+    }
+    int n = (int) vs.size();
+    std::vector<std::vector<int>> adj(n);
+    for (int u = 0; u < n; ++u)
+        for (EdgeInfList::const_iterator e = vs[u]->orthogVisList.begin(); e != vs[u]->orthogVisList.end(); ++e) {
+            if ((*e)->isDisabled() || (*e)->getDist() == 0) continue;
+            VertInf *w = (*e)->otherVert(vs[u]);
+            if (hopHeading(vs[u]->point, w->point) < 0) continue;
+            adj[u].push_back(id[w]);
+        }
+    int src = id[conn->src()], tar = id[conn->dst()];
+    printf("vgx"); for (int u = 0; u < n; ++u) printf(" %s", H(vs[u]->point.x).c_str()); printf("\n");
+    printf("vgy"); for (int u = 0; u < n; ++u) printf(" %s", H(vs[u]->point.y).c_str()); printf("\n");
+    printf("vga"); for (int u = 0; u < n; ++u) { printf(" %d", (int) adj[u].size()); for (int w : adj[u]) printf(" %d", w); } printf("\n");
+    printf("vgs %d %d\n", src, tar);
+    // backward Dijkstra over (vertex, heading)
+    const double BIG = 1e9;
+    std::vector<double> pot(n * 4, BIG);
+    typedef std::pair<double, int> QE;
+    std::priority_queue<QE, std::vector<QE>, std::greater<QE>> pq;
+    for (int h = 0; h < 4; ++h) { pot[tar * 4 + h] = 0; pq.push(QE(0, tar * 4 + h)); }
+    auto manh = [&](int a, int b) { return std::fabs(vs[a]->point.x - vs[b]->point.x) + std::fabs(vs[a]->point.y - vs[b]->point.y); };
+    auto turn = [&](int h, int d) { return d == h ? 0.0 : (d == (h + 2) % 4 ? 2 * pen : pen); };
+    while (!pq.empty()) {
+        QE e = pq.top(); pq.pop();
+        if (e.first > pot[e.second]) continue;
+        int w = e.second / 4, d = e.second % 4;
+        if (w == src) continue;                         // never entered
+        for (int u : adj[w]) {                           // undirected: u is a neighbour of w
+            if (hopHeading(vs[u]->point, vs[w]->point) != d) continue;
+            double l = manh(u, w);
+            for (int h = 0; h < 4; ++h) {
+                if (u == tar) continue;
+                double c = e.first + l + turn(h, d);
+                if (c < pot[u * 4 + h]) { pot[u * 4 + h] = c; pq.push(QE(c, u * 4 + h)); }
+            }
+        }
+    }
+    double opt = BIG; int bw = -1, bd = -1;
+    for (int w : adj[src]) {
+        if (w == src) continue;
+        int d = hopHeading(vs[src]->point, vs[w]->point);
+        double c = manh(src, w) + pot[w * 4 + d];
+        if (c < opt) { opt = c; bw = w; bd = d; }
+    }
+    bool reach = opt < BIG / 2;
+    printf("vgreachable %d\n", reach ? 1 : 0);
+    if (!reach) return;
+    printf("vgopt %s\n", H(opt).c_str());
+    printf("vgpot"); for (size_t i = 0; i < pot.size(); ++i) printf(" %s", H(pot[i]).c_str()); printf("\n");
+    printf("vgwit %d", bw);
+    int u = bw, h = bd, guard = 0;
+    while (u != tar && guard++ < 100000) {
+        int nw = -1, nd = -1;
+        for (int w : adj[u]) {
+            if (w == src) continue;
+            int d = hopHeading(vs[u]->point, vs[w]->point);
+            if (manh(u, w) + turn(h, d) + pot[w * 4 + d] == pot[u * 4 + h]) { nw = w; nd = d; break; }
+        }
+        if (nw < 0) break;
+        u = nw; h = nd; printf(" %d", u);
+    }
+    printf("\n");
+}
+
+// direction-restricted scene: the oracle is the optimum over libavoid's own visibility graph
+static void runSceneVG(long k, const char *tag, const Scene &s) {
+    vh::beginCase(k, tag);
+    printf("pen %s\nbuf %s\n", H(s.pen).c_str(), H(s.buf).c_str());
+    for (const R4 &r : s.rects) printf("rect %s %s %s %s\n", H(r.x0).c_str(), H(r.y0).c_str(), H(r.x1).c_str(), H(r.y1).c_str());
+    printf("src %s %s %u\ndst %s %s %u\n", H(s.sx).c_str(), H(s.sy).c_str(), s.smask, H(s.tx).c_str(), H(s.ty).c_str(), s.tmask);
+    fflush(stdout);
+    Router *router = new Router(OrthogonalRouting);
+    router->setRoutingParameter(segmentPenalty, s.pen);
+    router->setRoutingParameter(shapeBufferDistance, s.buf);
+    router->setRoutingParameter(idealNudgingDistance, 1.0);
+    for (const R4 &r : s.rects) { Rectangle poly(Point(r.x0, r.y0), Point(r.x1, r.y1)); new ShapeRef(router, poly); }
+    ConnRef *conn = new ConnRef(router, ConnEnd(Point(s.sx, s.sy), s.smask), ConnEnd(Point(s.tx, s.ty), s.tmask));
+    conn->setRoutingType(ConnType_Orthogonal);
+    router->processTransaction();
+    printPoly("route", conn->route());
+    printPoly("display", conn->displayRoute());
+    fflush(stdout);
+    dumpGraphAndCertificate(router, conn, s.pen);
+    delete router;
+    vh::endCase();
+}
+
 int main(int argc, char **argv) {
     vh::Args a = vh::parseArgs(argc, argv);
     bool thorough = a.tier == "thorough";
@@ -397,17 +553,34 @@ int main(int argc, char **argv) {
         if (!a.want(k)) continue;
         vh::Rng r = vh::caseRng(a.seed, k);
         int cls = (int) r.range(0, 4);
-        Scene s = genScene(r, cls, maxRects, false);
+        Scene s = genScene(r, cls, maxRects, 0);
         runScene(k, CLASSES[cls], s);
     }
-    if (a.mode == "dirs") {
+    // Direction-restricted endpoints.  The geometric optimum is not attained there (a first leg may be
+    // arbitrarily short), so these scenes are judged against the optimum of libavoid's OWN visibility
+    // graph (dumped after routing; certificate re-checked in Lean).
+    //   scene-dirs-src : only the source restricted, target ConnDirAll (strict; includes the leave-away shape)
+    //   scene-dirs-dst : target restricted (known finding: turn pruning); emitted under the legacy tag
+    //                    scene-dirs unless --mode dirs2
+    long ns = (thorough ? 3000 : 600) * a.scale;
+    for (long c = 0; c < ns; ++c, ++k) {
+        if (!a.want(k)) continue;
+        vh::Rng r = vh::caseRng(a.seed, k);
+        if (r.coin(1, 3)) { Scene s = genLeaveAway(r); if (s.smask != 15) { runSceneVG(k, "scene-dirs-src", s); continue; } }
+        int cls = (int) r.range(0, 4);
+        Scene s = genScene(r, cls, maxRects, 1);
+        if (s.smask == 15) s = genLeaveAway(r);          // outside rule lifted the restriction: use the shape class
+        runSceneVG(k, "scene-dirs-src", s);
+    }
+    if (a.mode == "dirs" || a.mode == "dirs2") {
+        const char *dtag = a.mode == "dirs2" ? "scene-dirs-dst" : "scene-dirs";
         long nd = (thorough ? 3000 : 500) * a.scale;
         for (long c = 0; c < nd; ++c, ++k) {
             if (!a.want(k)) continue;
             vh::Rng r = vh::caseRng(a.seed, k);
             int cls = (int) r.range(0, 4);
-            Scene s = genScene(r, cls, maxRects, true);
-            runScene(k, "scene-dirs", s);
+            Scene s = genScene(r, cls, maxRects, 2);
+            runSceneVG(k, dtag, s);
         }
     }
     return 0;
